@@ -16,6 +16,16 @@ const listWarnings = []
 if (process.env.GE_RLD_JS) {
   RealRangeListManager = require(process.env.GE_RLD_JS)((msg) => { listWarnings.push(String(msg)) }).RangeListManager
 }
+// The template instance of the REAL runtime (class GlassEaselTemplateInstance of glass-easel/src/tmpl/index.ts, translated
+// like the list manager): its `updateValues` turns data changes (replace / splice) into the update path tree, or takes
+// the binding-map shortcut for a single top-level change, and then drives this reference runtime.
+let RealTemplateInstance = null
+let RealUpdateMode = null
+if (process.env.GE_IDX_JS) {
+  const m = require(process.env.GE_IDX_JS)({ ProcGenWrapper: null })
+  RealTemplateInstance = m.GlassEaselTemplateInstance
+  RealUpdateMode = m.BindingMapUpdateEnabled
+}
 const shadowRootStub = { getHostNode() { return null } }
 // the part of glass-easel's Element that RangeListManager uses (element.ts: insertChildSingleOperation /
 // insertChildBatchInsertion / insertChildBatchRemoval, child list handling only)
@@ -393,6 +403,28 @@ class Runtime {
     return r
   }
 
+  // an instance of the real runtime's template-instance class whose ProcGenWrapper is this reference runtime
+  realInstance(procGen, mode) {
+    if (!RealTemplateInstance) throw new Error('the translated tmpl/index.ts is not available')
+    const inst = Object.create(RealTemplateInstance.prototype)
+    inst.forceBindingMapUpdate = mode === 'enabled' ? RealUpdateMode.Enabled : mode === 'forced' ? RealUpdateMode.Forced : RealUpdateMode.Disabled
+    inst.bindingMapGen = undefined
+    const self = this
+    self.lastTree = undefined
+    inst.procGenWrapper = {
+      create(data) { return self.create(procGen, data).B },
+      update(data, tree) { self.lastTree = tree; self.update(procGen, data, tree) },
+      bindingMapUpdate(field, data, gen) {
+        const updaters = gen[field]
+        if (!updaters) return false
+        self.lastTree = 'binding-map'
+        for (let i = 0; i < updaters.length; i += 1) updaters[i](data, () => {}, (node, v) => { node.text = v })
+        return true
+      },
+    }
+    return inst
+  }
+
   bindingMapUpdate(field, data) {
     const updaters = this.bindingMap && this.bindingMap[field]
     if (!updaters) return false
@@ -402,6 +434,34 @@ class Runtime {
     }
     return true
   }
+}
+
+// does the update path tree `t` mark at least every path on which `a` and `b` differ?  (the premise of C06; descent as the
+// generated code does it with Z: `true` covers everything, marks may be inherited from a prototype array)
+function covers(t, a, b, depth) {
+  depth = depth || 0
+  if (t === true) return true
+  if (Object.is(a, b)) return true
+  const isObj = (x) => typeof x === 'object' && x !== null
+  if (!isObj(a) || !isObj(b) || Array.isArray(a) !== Array.isArray(b)) {
+    if (typeof a === 'function' && typeof b === 'function' && a.$name === b.$name) return true
+    return false
+  }
+  if (depth > 40) return false
+  const sub = (k) => (t ? t[k] : undefined)
+  const keys = new Set([...Object.keys(a), ...Object.keys(b)])
+  if (Array.isArray(a) && a.length !== b.length) keys.add('length')
+  for (const k of keys) {
+    const av = k === 'length' && Array.isArray(a) ? a.length : a[k]
+    const bv = k === 'length' && Array.isArray(b) ? b.length : b[k]
+    const st = sub(k)
+    if (k === 'length') {
+      if (!st) return false
+      continue
+    }
+    if (!covers(st === undefined || st === null || st === false || typeof st === 'number' ? undefined : st, av, bv, depth + 1)) return false
+  }
+  return true
 }
 
 // ---- value (de)serialisation: JSON with markers for what JSON cannot carry ----
@@ -521,4 +581,4 @@ function syntaxCheck(src) {
   return res
 }
 
-module.exports = { Runtime, encodeValue, decodeValue, decodeTree, serializeNode, loadGroup, syntaxCheck, listItems }
+module.exports = { Runtime, encodeValue, decodeValue, decodeTree, serializeNode, loadGroup, syntaxCheck, listItems, covers }
